@@ -331,7 +331,7 @@ fn evaluate_str(report: &mut Report, cases: &[StrCase], outcomes: &[StrOutcome],
                     failing_input_found: true,
                 });
             } else {
-                report.hist("string-oracle-lua51", "fails-outside-lua51Safe(\\u / F14b)");
+                report.hist("string-oracle-lua51", "fails-outside-lua51Safe(needs \\u{})");
             }
         } else {
             report.hist("string-oracle-lua51", "ok");
